@@ -575,10 +575,11 @@ def finish(pid, tier, results, t0, meta):
         lines.append('CHECKER-ERROR zero obligations generated')
         errors.append(Result('zero-obligations', 'vacuity', 'error'))
 
-    if errors:
+    if violations:
+        code = 1        # a refuted obligation stands, whatever else went wrong in the same run (a vacuity guard that
+                        # fires next to it is usually the same change seen from another obligation)
+    elif errors:
         code = 3
-    elif violations:
-        code = 1
     elif undecided:
         # degraded run: the bounded stand-in decides (never reported as proof)
         native = [r for r in bounded if r.get('backend') == 'native-enumeration']
